@@ -411,3 +411,104 @@ Section EndToEnd.
     exists nd, f. rewrite <- H4, Hb, <- H1, <- H2, <- H3. rewrite Hgr. unfold notice_of_row. simpl. auto 10.
   Qed.
 End EndToEnd.
+
+(* ---------------------------------------------------------------------------------------------- *)
+(* capabilities.rego as written means what [eval_pred] says                                       *)
+Lemma pred_rules_spec_sound p c : pred_by_rules pred_rules_spec p c = eval_pred p c.
+Proof.
+  destruct p; unfold pred_by_rules, pred_rules_spec; cbn [existsb cap_pred_eqb fst snd andb orb eval_clause];
+    rewrite ?orb_false_r; unfold eval_pred, has_if, has_contains, has_object_keys, has_strings_count,
+    has_rego_v1_feature, is_opa_v1; rewrite ?orb_assoc; reflexivity.
+Qed.
+
+Lemma cap_pred_eqb_eq p q : cap_pred_eqb p q = true -> p = q.
+Proof. destruct p, q; simpl; try discriminate; reflexivity. Qed.
+
+Lemma clause_eqb_eq a b : clause_eqb a b = true -> a = b.
+Proof.
+  destruct a, b; simpl; try discriminate; intros H;
+    try (apply str_eqb_eq in H; congruence).
+  apply cap_pred_eqb_eq in H. congruence.
+Qed.
+
+Lemma pred_rules_eqb_eq a b : pred_rules_eqb a b = true -> a = b.
+Proof.
+  revert b. induction a as [|[p x] a IH]; intros [|[q y] b]; simpl; try discriminate; [reflexivity|].
+  rewrite !andb_true_iff. intros [[Hp Hx] Hb]. apply cap_pred_eqb_eq in Hp. apply clause_eqb_eq in Hx.
+  rewrite (IH _ Hb). congruence.
+Qed.
+
+(* ---------------------------------------------------------------------------------------------- *)
+(* a need reads its own dimensions of the target and nothing else                                 *)
+Lemma need_unmet_reads_only n c c' f :
+  (forall d, In d (need_reads n) -> dim_on d c = dim_on d c') ->
+  need_unmet n c f = need_unmet n c' f.
+Proof.
+  intros H. destruct n; cbn [need_reads] in H; cbn [need_unmet];
+    repeat match goal with
+           | |- context [str_in ?s (cap_builtins c)] =>
+               change (str_in s (cap_builtins c)) with (dim_on (DBuiltin s) c); rewrite (H (DBuiltin s)) by (simpl; tauto)
+           | |- context [str_in ?s (cap_future_keywords c)] =>
+               change (str_in s (cap_future_keywords c)) with (dim_on (DKeyword s) c); rewrite (H (DKeyword s)) by (simpl; tauto)
+           | |- context [str_in ?s (cap_features c)] =>
+               change (str_in s (cap_features c)) with (dim_on (DFeature s) c); rewrite (H (DFeature s)) by (simpl; tauto)
+           end; reflexivity.
+Qed.
+
+Lemma dim_eqb_eq a b : dim_eqb a b = true <-> a = b.
+Proof.
+  split.
+  - destruct a, b; simpl; try discriminate; intros H; apply str_eqb_eq in H; congruence.
+  - intros <-. destruct a; simpl; apply str_eqb_refl.
+Qed.
+
+Lemma dim_in_In d l : dim_in d l = true <-> In d l.
+Proof.
+  induction l as [|x l IH]; simpl; [split; [discriminate|tauto]|].
+  rewrite orb_true_iff, IH, dim_eqb_eq. split; intros [H|H]; auto.
+Qed.
+
+Lemma dims_dedup_In d l : In d (dims_dedup l) <-> In d l.
+Proof.
+  induction l as [|x l IH]; simpl; [tauto|].
+  destruct (dim_in x l) eqn:E.
+  - rewrite IH. split; [auto|]. intros [<-|H]; [apply dim_in_In; exact E|exact H].
+  - simpl. rewrite IH. tauto.
+Qed.
+
+(* every dimension a need of the table reads is one of the table's dimensions *)
+Lemma table_dims_complete t r d : In r t -> In d (need_reads (nd_need r)) -> In d (table_dims t).
+Proof.
+  intros Hr Hd. unfold table_dims. apply dims_dedup_In. apply in_flat_map. exists r. split; assumption.
+Qed.
+
+(* [assignments] is complete: whatever the target, its own on/off pattern over ds is one of them *)
+Lemma assignments_complete ds c :
+  In (map (fun d => (d, dim_on d c)) ds) (assignments ds).
+Proof.
+  induction ds as [|d ds IH]; simpl; [left; reflexivity|].
+  apply in_flat_map. exists (map (fun d0 => (d0, dim_on d0 c)) ds). split; [exact IH|].
+  destruct (dim_on d c); simpl; auto.
+Qed.
+
+Lemma realises_spec c a : realises c a = true <-> forall d v, In (d, v) a -> dim_on d c = v.
+Proof.
+  unfold realises. rewrite forallb_forall. split.
+  - intros H d v Hin. apply Bool.eqb_prop. exact (H (d, v) Hin).
+  - intros H [d v] Hin. simpl. rewrite (H d v Hin). apply Bool.eqb_reflx.
+Qed.
+
+(* if the targets cover all assignments of the table's dimensions, then for EVERY capabilities c there is a target
+   that every need of the table cannot tell from c *)
+Lemma dims_covered_sound t targets :
+  dims_covered t targets = true ->
+  forall c, exists c0, In c0 targets /\
+    forall r f, In r t -> need_unmet (nd_need r) c0 f = need_unmet (nd_need r) c f.
+Proof.
+  unfold dims_covered. rewrite forallb_forall. intros H c.
+  specialize (H _ (assignments_complete (table_dims t) c)).
+  apply existsb_exists in H. destruct H as (c0 & Hin & Hr). exists c0. split; [exact Hin|].
+  intros r f Hrt. apply need_unmet_reads_only. intros d Hd.
+  rewrite realises_spec in Hr. apply (Hr d (dim_on d c)).
+  apply in_map_iff. exists d. split; [reflexivity|]. exact (table_dims_complete t r d Hrt Hd).
+Qed.
